@@ -23,16 +23,28 @@ theorem alloc_ge_bound (rem b share : Rat) : b ≤ pvAlloc rem b share := by
   unfold pvAlloc pyMax
   grind
 
+theorem share_nonpos (rem : Rat) (num idx : Nat) (hr : rem ≤ 0) : pvShare rem num idx ≤ 0 := by
+  unfold pvShare
+  exact div_nat_nonpos rem (num - idx) hr
+
+/-- An equal share of a negative remaining power is never more (in magnitude) than what remains. -/
+theorem share_ge_rem (rem : Rat) (num idx : Nat) (hr : rem ≤ 0) : rem ≤ pvShare rem num idx := by
+  unfold pvShare
+  rcases Nat.eq_zero_or_pos (num - idx) with h0 | hp
+  · rw [h0]; simpa using hr
+  · have h1 : (1 : Rat) ≤ ((num - idx : Nat) : Rat) := by exact_mod_cast hp
+    have := div_le_self (neg_nonneg.mpr hr) h1
+    rw [neg_div] at this
+    exact neg_le_neg_iff.mp this
+
 /-- …and never takes more than what remains. -/
-theorem alloc_ge_rem (rem b share : Rat) : rem ≤ pvAlloc rem b share := by
+theorem alloc_ge_rem (rem b share : Rat) (hs : rem ≤ share) : rem ≤ pvAlloc rem b share := by
   unfold pvAlloc pyMax
   grind
 
 theorem alloc_nonpos (rem b : Rat) (num idx : Nat) (hr : rem < 0) (hb : b ≤ 0) :
     pvAlloc rem b (pvShare rem num idx) ≤ 0 := by
-  have hs : pvShare rem num idx ≤ 0 := by
-    unfold pvShare
-    exact div_nat_nonpos rem (num - idx) (le_of_lt hr)
+  have hs : pvShare rem num idx ≤ 0 := share_nonpos rem num idx (le_of_lt hr)
   unfold pvAlloc pyMax
   grind
 
@@ -51,7 +63,8 @@ theorem allocLoop_bounds (num : Nat) (xs : List PvInv) (idx : Nat) (rem : Rat) :
       refine List.Forall₂.cons ⟨rfl, Or.inl rfl, fun hb => ⟨hb, le_refl _⟩⟩ (ih _ _)
     · simp only [allocLoop, hs, if_false]
       have hr := neg_of_not_skip rem hs
-      refine List.Forall₂.cons ⟨rfl, Or.inr (alloc_ge_bound _ _ _), fun hb => ⟨alloc_ge_bound _ _ _, alloc_nonpos _ _ _ _ hr hb⟩⟩ (ih _ _)
+      refine List.Forall₂.cons ⟨rfl, Or.inr (alloc_ge_bound rem x.bound (pvShare rem num idx)),
+        fun hb => ⟨alloc_ge_bound rem x.bound (pvShare rem num idx), alloc_nonpos rem x.bound num idx hr hb⟩⟩ (ih _ _)
 
 /-- The remaining power never changes sign and never grows in magnitude: `rem ≤ remaining' ≤ 0` when the
 request is negative and all bounds are non-positive. -/
@@ -67,7 +80,7 @@ theorem allocLoop_remaining (num : Nat) (xs : List PvInv) (idx : Nat) (rem : Rat
       exact ih _ _ hb' hr
     · simp only [allocLoop, hs, if_false]
       have hneg := neg_of_not_skip rem hs
-      have h1 := alloc_ge_rem rem x.bound (pvShare rem num idx)
+      have h1 := alloc_ge_rem rem x.bound (pvShare rem num idx) (share_ge_rem rem num idx (le_of_lt hneg))
       have h2 := alloc_nonpos rem x.bound num idx hneg (hb x List.mem_cons_self)
       have := ih (idx + 1) (rem - pvAlloc rem x.bound (pvShare rem num idx)) hb' (by grind)
       constructor <;> grind
